@@ -19,10 +19,7 @@ Definition nextev (q : sp) : option (N * N) :=
   end.
 
 Lemma peek_nextev q : peek q = option_map snd (nextev q).
-Proof. unfold peek, nextev. destruct (s_zero q); [destruct (s_rest q)|]; reflexivity. Qed.
-
-Lemma SI_new_at S : SI (sp_new_at S).
-Proof. constructor; cbn; try constructor; intros e []. Qed.
+Proof. unfold peek, sp_peek, nextev. destruct (s_zero q); [destruct (s_rest q)|]; reflexivity. Qed.
 
 (* ---- add ---- *)
 Lemma sp_add_past q t l : t < s_tcur q -> sp_add q t l = (q, None, OPanic 1).
